@@ -314,7 +314,17 @@ def mat(v):
 
 
 def mats(vs):
-    return [mat(v) for v in vs]
+    """materialise a list of descriptors; ``["same"]`` stands for the very same OBJECT as its predecessor (a reader
+    that recycles one record object, interned values)"""
+    out = []
+    for v in vs:
+        if v and v[0] == "same" and out:
+            out.append(out[-1])
+        elif v and v[0] == "same":
+            continue
+        else:
+            out.append(mat(v))
+    return out
 
 
 NAN = float("nan")
